@@ -158,9 +158,39 @@ def coq_case(c):
 
 def run_model(cases):
     # nat arguments (column positions, table indices) are small literals: print them with %nat
-    terms = [_natify(coq_case(c)) for c in cases]
+    plain = [i for i, c in enumerate(cases) if c["kind"] in ("ops", "rt")]
+    idx = [i for i, c in enumerate(cases) if c["kind"] in ("iops", "irt")]
+    res = [None] * len(cases)
+    terms = [_natify(coq_case(cases[i])) for i in plain]
     out = core.coq_eval(PROP, ["Lib.Chars", "Model.Csv", "Model.Table", "Model.TableRun"], "run_case", terms, "case", shard=150)
-    return [_model_canon(c, r) for c, r in zip(cases, out)]
+    for i, r in zip(plain, out):
+        res[i] = _model_canon(cases[i], r)
+    iterms = [_natify(coq_icase(cases[i])) for i in idx]
+    iout = core.coq_eval(PROP, ["Lib.Chars", "Model.Csv", "Model.Table", "Model.TableRun", "Model.TableIndex"], "run_icase", iterms,
+                         "icase", shard=150, tag="i")
+    for i, r in zip(idx, iout):
+        res[i] = model_floats(r)
+    return res
+
+
+def coq_iop(o):
+    k = o["op"]
+    if k == "lookup":
+        return f"ILookup {coq_cell(o['label'])} {zstr(o['col'])}"
+    if k == "row":
+        return f"IRow {coq_cell(o['label'])}"
+    if k == "get_columns_ix":
+        return f"IGetColumns {coq_strs(o['columns'])} {cbool(o['with_index'])}"
+    return f"IBase ({coq_op(o)})"
+
+
+def coq_icase(c):
+    if c["kind"] == "iops":
+        ops = ";".join(coq_iop(o) for o in c["ops"])
+        return ("(ICaseOps [" + ";".join(coq_table(t) for t in c["tables"]) + "] " + coq_ostr(c["tables"][0].get("index_name"))
+                + " [" + ops + "])")
+    return (f"(ICaseRT {ord(c['sep'])} {zstr(c['title'])} {zstr(c['legend'])} {coq_ostr(c['index_name'])} "
+            f"{coq_table(c['table'])})")
 
 
 def _natify(term: str) -> str:
@@ -322,6 +352,11 @@ def rand_sort_op(rng, tb, allow_prefix=False):
     header = tb["header"]
     kinds = {c: kind_of(col) for c, col in zip(header, tb["cols"])}
     sortable = [c for c in header if kinds[c] in "iUbf"]
+    objs = [c for c in header if kinds[c] == "O"]
+    if objs and rng.random() < 0.15:
+        c = rng.choice(objs)
+        return dict(op="sorted", columns=[c] + rng.sample(sortable, min(len(sortable), rng.randint(0, 1))),
+                    reverse=[c] if rng.random() < 0.3 else None)
     if not sortable or not tb["cols"] or not tb["cols"][0]:
         return None
     revable = list(sortable)  # int, float, str (prefixes included), bool
@@ -563,6 +598,14 @@ def exhaustive_sort_block(tier):
         rng = random.Random(4)
         for _ in range(1500):
             add([rng.choice(cells) for _ in range(4)], rng.randrange(len(args)))
+    # object-dtype key columns (None / mixed values): TypeError where the values cannot be compared
+    for col in ([None, 1, 2], [1, None], [None, None], [1, "a"], [1, True, 0], [None], ["a", None, "b"], [2, True, 0.5], ["b", "a", None]):
+        n = len(col)
+        tb = dict(header=["k", "a", "id"], cols=[col, [1] * n, list(range(n))])
+        tb2 = dict(header=["k", "a", "id"], cols=[col, list(range(n, 0, -1)), list(range(n))])
+        for c, r in ((["k"], None), (None, ["k"]), (["k", "a"], None), (["a", "k"], None), (["a", "k"], ["k"]), (["k", "a"], ["a"])):
+            cases.append(dict(kind="ops", tables=[tb], ops=[dict(op="sorted", columns=c, reverse=r)], block="exh-sort-object"))
+            cases.append(dict(kind="ops", tables=[tb2], ops=[dict(op="sorted", columns=c, reverse=r)], block="exh-sort-object"))
     # float keys (and float x bool), oracle only
     fvals = [0.5, -1.25, 2.0]
     fargs = [(["f"], None), (["f"], ["f"]), (None, ["f"]), (["z", "f"], ["f"]), (["z", "f"], ["z"]), (["f", "z"], ["z", "f"]), (["z"], ["f"])]
@@ -857,21 +900,33 @@ def resolve_sort_columns(header, columns, reverse):
     return columns, reverse
 
 
+def py_incomparable(vals):
+    """would Python's < raise between two of these values?  None compares with nothing, numbers with
+    numbers, strings with strings"""
+    classes = {0 if v is None else 2 if isinstance(v, str) else 1 for v in vals}
+    return 0 in classes or classes >= {1, 2}
+
+
 def sort_spec(header, rows, columns, reverse, kinds=None):
-    """stable sort by the key tuple with per-column reversal (ints / floats by value, strings by code
-    point, False < True)"""
+    """stable sort by the key tuple with per-column reversal (ints / floats / bools by value, strings by code
+    point, False < True).  Returns Exc(3) where Python's sort of the row tuples raises TypeError for sure (the
+    FIRST key column holds values that cannot be compared, at least two rows); None where it is undetermined
+    (such a column as a later key: it is only compared on ties of the earlier keys)."""
     res = resolve_sort_columns(header, columns, reverse)
     if res is None:
         return None
     columns, reverse = res
-    if kinds is not None and any(kinds[header.index(c)] == "O" for c in columns):
-        return None  # numpy object columns: comparison / reversal is whatever the objects support
+    for n, c in enumerate(columns):
+        vals = [r[header.index(c)] for r in rows]
+        if py_incomparable(vals) and len(rows) >= 2:
+            if n == 0 or c in reverse:
+                return Exc(3)      # a reversed column is ranked with numpy.unique, which sorts all its values
+            return None
+        if any(not isinstance(v, (int, float, str, bool)) for v in vals) and len(rows) >= 2:
+            return None
     out = list(rows)
     for c in reversed(columns):
         j = header.index(c)
-        vals = [r[j] for r in rows]
-        if not homogeneous(vals):
-            return None
         out.sort(key=lambda r: r[j], reverse=c in reverse)
     return out
 
@@ -918,6 +973,8 @@ def oracle_step(o, cur, tables):
             return None
         kinds = cur.get("kinds") or [kind_of(col) for col in cur["cols"]]
         out = sort_spec(header, rows, o["columns"], o["reverse"], kinds=kinds)
+        if isinstance(out, Exc):
+            return out
         return None if out is None else mk(header, out)
     if k in ("filtered", "count"):
         cols = o["columns"] if o["columns"] is not None else header
@@ -1164,13 +1221,15 @@ def compare_ops(rep, c, ir, mr, stats):
         bad = False
         if exp is not None:
             stats["oracle_applied"] += 1
-            if isinstance(exp, dict):
+            if isinstance(exp, Exc):
+                bad = not (is_exc(obs) and obs["exc"] == exp.code)
+            elif isinstance(exp, dict):
                 bad = is_exc(obs) or not same_table(obs, exp)
             else:
                 bad = is_exc(obs) or obs != exp
             if bad:
-                key = classify_ops(o, cur, tables, obs, exp)
-                rep.violation(key, dict(case=small, op=o, expected_by_spec=exp, observed_impl=obs,
+                key = classify_ops(o, cur, tables, obs, exp) if not isinstance(exp, Exc) else o["op"] + ":expected-TypeError"
+                rep.violation(key, dict(case=small, op=o, expected_by_spec=exp if not isinstance(exp, Exc) else {"exc": exp.code}, observed_impl=obs,
                                         model_output=_jm(m), broken="Table." + o["op"] + " differs from the list-of-rows specification"))
                 stats["spec_violations"] += 1
                 stats.setdefault("vkeys", []).append(key)
@@ -1398,10 +1457,264 @@ def model_ok_for(c):
             # finite, not -0.0, and the decimal repr shows reads back to the same float
             return math.isfinite(x) and repr(x) != "-0.0" and dec_float(*float_dec(x)) == x
         return x is None or isinstance(x, (bool, int, str))
-    tbs = c["tables"] if c["kind"] == "ops" else [c["table"]]
-    if any(t.get("index_name") for t in tbs):
+    tbs = c["tables"] if c["kind"] in ("ops", "iops") else [c["table"]]
+    if c["kind"] == "ops" and any(t.get("index_name") for t in tbs):
         return False
     return all(ok(x) for t in tbs for col in t["cols"] for x in col)
+
+
+# ------------------------------------------------------------------ index_name, title, legend
+
+
+def with_index_first(tb, ix):
+    """the column order of a table whose index_name is ix"""
+    if ix is None or ix not in tb["header"]:
+        return dict(header=list(tb["header"]), cols=list(tb["cols"]))
+    j = tb["header"].index(ix)
+    order = [j] + [k for k in range(len(tb["header"])) if k != j]
+    return dict(header=[tb["header"][k] for k in order], cols=[tb["cols"][k] for k in order])
+
+
+def unique_values(col):
+    return len(_pyset(col)) == len(col)
+
+
+def oracle_istep(o, cur, ix, tables):
+    """list-of-rows specification for a table that carries an index column: the rows are those of the
+    un-indexed operation, the index column stands first, and row labels select rows.
+    returns (expected, new_index) ; expected None where the specification is silent"""
+    k = o["op"]
+    header = cur["header"]
+    if k in ("lookup", "row"):
+        if ix is None:
+            return None, ix
+        rows = rows_of(cur)
+        j = header.index(ix)
+        hit = [r for r in rows if r[j] == o["label"]]
+        if not hit:
+            return Exc(5), ix
+        if k == "lookup":
+            if o["col"] not in header:
+                return Exc(5), ix
+            return hit[0][header.index(o["col"])], ix
+        return dict(mk(header, hit[:1]), index=ix), ix
+    if k == "get_columns_ix":
+        names = list(o["columns"])
+        if ix is not None and o["with_index"]:
+            names = [ix] + [c for c in names if c != ix]
+        exp = oracle_step(dict(op="get_columns", columns=names), cur, tables)
+        if not isinstance(exp, dict):
+            return None, ix
+        nix = ix if ix in exp["header"] else None
+        return dict(with_index_first(exp, nix), index=nix), nix
+    exp = oracle_step(o, cur, tables)
+    if k in ("count", "distinct"):
+        return exp, ix
+    if not isinstance(exp, dict):
+        return None, ix
+    if k == "transposed" or (k == "join" and not o["inner"]):
+        nix = None
+    elif k in ("with_new_column", "get_columns"):
+        if k == "get_columns" and ix is not None:
+            return oracle_istep(dict(op="get_columns_ix", columns=o["columns"], with_index=True), cur, ix, tables)
+        nix = ix if ix in exp["header"] else None
+    else:
+        nix = ix
+    if nix is not None:
+        if nix not in exp["header"]:
+            return None, ix          # the index column is gone: the code raises on activation
+        if not unique_values(exp["cols"][exp["header"].index(nix)]):
+            return None, ix          # the kept index is no longer unique: the code raises on activation
+    return dict(with_index_first(exp, nix), index=nix), nix
+
+
+def compare_iops(rep, c, ir, mr, stats):
+    dis = []
+    tables = c["tables"]
+    ix = tables[0].get("index_name")
+    stats["ops"]["index:cases"] = stats["ops"].get("index:cases", 0) + 1
+    t0 = tables[0]
+    valid = ix is None or (ix in t0["header"] and unique_values(t0["cols"][t0["header"].index(ix)]))
+    if not valid:
+        # construction must fail (ValueError), in the model as well
+        ok = isinstance(ir, list) and len(ir) == 1 and is_exc(ir[0]) and ir[0]["exc"] == 2
+        stats["steps"] += 1
+        stats["oracle_applied"] += 1
+        if not ok:
+            stats["spec_violations"] += 1
+            rep.violation("index_name:invalid-index-accepted", dict(case=c, expected_by_spec="ValueError", observed_impl=ir,
+                                                                   broken="an index_name that is not a column with unique values was accepted"))
+        elif mr is not None and mr != [Exc(2)]:
+            dis.append(dict(key="index:construct", case=c, observed_impl=ir, model_output=_jm(mr)))
+        return dis
+    cur = with_index_first(t0, ix)
+    for i, o in enumerate(c["ops"]):
+        if i >= len(ir):
+            break
+        obs = _decode_obs(ir[i])
+        stats["steps"] += 1
+        stats["ops"]["index:" + o["op"]] = stats["ops"].get("index:" + o["op"], 0) + 1
+        if mr is not None and i >= len(mr):
+            mr = None
+        m = mr[i] if mr is not None else None
+        exp, nix = oracle_istep(o, cur, ix, tables)
+        small = dict(kind="iops", tables=[dict(cur, index_name=ix)] + tables[1:], ops=[o], block=c.get("block"))
+        # normal form of the observation: tables as [[header, cols, nrows], index]
+        if isinstance(obs, list) and len(obs) == 2 and isinstance(obs[0], list) and len(obs[0]) == 4:
+            obs_n = [obs[0][:3], obs[1]]
+        elif is_exc(obs):
+            obs_n = {"exc": obs["exc"]}
+        else:
+            obs_n = sorted(obs, key=repr) if o["op"] == "distinct" and isinstance(obs, list) else obs
+        bad = False
+        if exp is not None:
+            stats["oracle_applied"] += 1
+            if isinstance(exp, Exc):
+                bad = not (is_exc(obs) and obs["exc"] == exp.code)
+            elif isinstance(exp, dict):
+                # a table without rows loses its columns (and with them the index) in several places; the row-list
+                # specification cannot see that
+                no_rows = not rows_of(exp)
+                bad = (is_exc(obs) or not isinstance(obs_n, list) or not same_table(obs_n[0], exp)
+                       or (obs_n[1] != exp["index"] and not no_rows))
+            else:
+                bad = is_exc(obs) or obs_n != exp
+            if bad:
+                stats["spec_violations"] += 1
+                rep.violation("index_name:" + o["op"], dict(case=small, op=o, expected_by_spec=exp if not isinstance(exp, Exc) else {"exc": exp.code},
+                                                            observed_impl=obs, model_output=_jm(m),
+                                                            broken="Table." + o["op"] + " on a table with index_name differs from the specification"))
+        if mr is not None:
+            m_cmp = {"exc": m.code} if isinstance(m, Exc) else (sorted(m, key=repr) if o["op"] == "distinct" and isinstance(m, list) else m)
+            if isinstance(m, Exc) and m.code == E_NOT_MODELLED:
+                stats["not_modelled"] += 1
+                mr = None
+            elif m_cmp != obs_n:
+                if bad:
+                    mr = None
+                else:
+                    dis.append(dict(key="index:" + o["op"], case=small, op=o, observed_impl=obs, model_output=_jm(m)))
+        if is_exc(obs):
+            break
+        if o["op"] not in ("count", "distinct", "lookup", "row"):
+            cur = dict(header=obs[0][0], cols=obs[0][1], kinds=obs[0][3])
+            ix = obs[1]
+            if obs[0][2] >= 1:
+                stats["nontrivial"].add(json.dumps([small["tables"], o], sort_keys=True, default=str))
+        elif obs not in (0, []):
+            stats["nontrivial"].add(json.dumps([small["tables"], o], sort_keys=True, default=str))
+    return dis
+
+
+def compare_irt(rep, c, ir, mr, stats):
+    dis = []
+    tb, ix = c["table"], c["index_name"]
+    stats["steps"] += 1
+    stats["ops"]["rt:title-legend-index"] = stats["ops"].get("rt:title-legend-index", 0) + 1
+    stats["oracle_applied"] += 1
+    exp_t = with_index_first(tb, ix)
+    loaded = _decode_obs(ir.get("loaded")) if isinstance(ir, dict) else ir
+    ok = (isinstance(loaded, list) and loaded[0] == c["title"] and loaded[1] == c["legend"]
+          and loaded[2][1] == ix and loaded[2][0][0] == exp_t["header"] and loaded[2][0][2] == len(rows_of(exp_t))
+          and all(cell_text(x) == loaded_text(y) or numeric_restoration(x, y)
+                  for ca, cb in zip(exp_t["cols"], loaded[2][0][1]) for x, y in zip(ca, cb)))
+    if not ok:
+        stats["spec_violations"] += 1
+        rep.violation("roundtrip:delimited:title-legend-index", dict(case=c, expected_by_spec=dict(title=c["title"], legend=c["legend"], index=ix,
+                                                                     header=exp_t["header"]), observed_impl=ir, model_output=_jm(mr),
+                                                                     broken="write + load_table(with_title, with_legend, index_name) does not return title / legend / index / cells"))
+    elif rows_of(tb):
+        stats["nontrivial"].add(json.dumps([tb, c["title"], c["legend"], ix], sort_keys=True, default=str))
+    if mr is not None and ok and not (isinstance(mr, Exc)):
+        m_text, m_loaded = mr[0], mr[1]
+        if isinstance(m_loaded, Exc) and m_loaded.code == E_NOT_MODELLED:
+            stats["typed_not_modelled"] = stats.get("typed_not_modelled", 0) + 1
+        else:
+            got = [loaded[0], loaded[1], [loaded[2][0][:3], loaded[2][1]]]
+            want = {"exc": m_loaded.code} if isinstance(m_loaded, Exc) else m_loaded
+            if ir.get("text") != m_text or got != want:
+                dis.append(dict(key="irt", case=c, observed_impl=ir, model_output=_jm(mr)))
+            else:
+                stats["typed_ties"] = stats.get("typed_ties", 0) + 1
+    return dis
+
+
+def index_block(tier, rng):
+    """tables with index_name: the index column anywhere in the header, every operation, row-label lookups,
+    joins / appends that break the uniqueness of the kept index, invalid indexes; delimited round trips with
+    title and legend rows and index_name"""
+    cases = []
+    t0 = dict(header=["x", "id", "y"], cols=[[3, 1, 2], ["r1", "r2", "r3"], ["a", "b", "a"]], index_name="id")
+    o1 = dict(header=["y", "q"], cols=[["a", "a", "b"], [10, 11, 12]])
+    o2 = dict(header=["y", "q"], cols=[["b", "c"], [10, 11]])
+    o3 = dict(header=["y", "x", "id"], cols=[["z"], [9], ["r9"]])
+    o4 = dict(header=["y", "x", "id"], cols=[["z"], [9], ["r1"]])
+    mkc = lambda ops, t=t0, blk="index": dict(kind="iops", tables=[t, o1, o2, o3, o4], ops=ops, block=blk)
+    base_ops = [
+        [dict(op="lookup", label="r2", col="x")], [dict(op="lookup", label="r3", col="y")], [dict(op="lookup", label="zz", col="x")],
+        [dict(op="lookup", label="r1", col="nope")], [dict(op="row", label="r2")], [dict(op="row", label="q")],
+        [dict(op="get_columns_ix", columns=["y"], with_index=True)], [dict(op="get_columns_ix", columns=["y"], with_index=False)],
+        [dict(op="get_columns_ix", columns=["y", "id", "x"], with_index=True)], [dict(op="get_columns", columns=["x"])],
+        [dict(op="sorted", columns=["x"], reverse=None), dict(op="lookup", label="r1", col="x")],
+        [dict(op="sorted", columns=None, reverse=["y"])], [dict(op="sorted", columns=["y", "x"], reverse=["x"])],
+        [dict(op="filtered", pred=["gt", 0, 1], columns=["x"], form="callable"), dict(op="lookup", label="r1", col="y")],
+        [dict(op="filtered", pred=["eqc", 0, "a"], columns=["y"], form="string")],
+        [dict(op="count", pred=["eqc", 0, "a"], columns=["y"], form="callable")], [dict(op="distinct", columns=["y"])],
+        [dict(op="with_new_column", name="z", expr=["add", 0, 0], columns=["x"], form="callable")],
+        [dict(op="with_new_column", name="id", expr=["const", 5], columns=["x"], form="callable")],
+        [dict(op="join", other=1, cs=["y"], co=["y"], inner=True, prefix="right_")],
+        [dict(op="join", other=2, cs=["y"], co=["y"], inner=True, prefix="right_"), dict(op="lookup", label="r2", col="right_q")],
+        [dict(op="join", other=2, cs=None, co=None, inner=True, prefix="right_")],
+        [dict(op="join", other=2, cs=None, co=None, inner=False, prefix="right_")],
+        [dict(op="appended", newcol=None, self_title="t", others=[["o", 3]])],
+        [dict(op="appended", newcol="src", self_title="t", others=[["o", 3]])],
+        [dict(op="appended", newcol=None, self_title="t", others=[["o", 4]])],
+        [dict(op="transposed", new="n", sah="id")], [dict(op="transposed", new="n", sah=None)],
+        [dict(op="transposed", new="n", sah="x")], [dict(op="transposed", new="n", sah="y")],
+        [dict(op="filtered_by_column", cell="a")], [dict(op="filtered_by_column", cell="r1")],
+        # the index column listed AFTER another column: the row handed to the callback keeps the requested order
+        [dict(op="filtered", pred=["eqc", 0, "a"], columns=["y", "id"], form="callable")],
+        [dict(op="filtered", pred=["eqc", 1, "r2"], columns=["x", "id"], form="string")],
+        [dict(op="count", pred=["eqc", 0, "a"], columns=["y", "id"], form="callable")],
+        [dict(op="with_new_column", name="z", expr=["iseq", 1, "r2"], columns=["x", "id"], form="callable")],
+        [dict(op="distinct", columns=["y", "id"])], [dict(op="distinct", columns=["x", "id"])],
+    ]
+    for ops in base_ops:
+        cases.append(mkc(ops))
+    # the index column in every position, and invalid indexes
+    for ixn in ("x", "id", "y", "nope"):
+        cases.append(mkc([dict(op="sorted", columns=None, reverse=["x"])], dict(t0, index_name=ixn)))
+        cases.append(mkc([dict(op="transposed", new="n", sah="id")], dict(t0, index_name=ixn)))
+    cases.append(mkc([dict(op="count", pred=["true"], columns=None)], dict(header=["a"], cols=[[1, True]], index_name="a")))
+    # random
+    n = 150 if tier == "quick" else 3000
+    for _ in range(n):
+        c = random_ops_case(rng)
+        t = c["tables"][0]
+        if not t["header"] or not t["cols"][0]:
+            continue
+        # the index is the first column here (the ops were generated for this column order; the index in other
+        # positions is covered by the deterministic cases above); sometimes one with repeated values (rejected)
+        ixn = t["header"][0]
+        if None in t["cols"][0] or kind_of(t["cols"][0]) not in "iU":
+            continue        # labels are ints or strings (None stands for "no label" in the row template)
+        if not unique_values(t["cols"][0]) and rng.random() < 0.8:
+            continue
+        # one generated operation only: later ones were typed for the column order of the un-indexed result
+        ops = list(c["ops"][:1])
+        col = t["cols"][t["header"].index(ixn)]
+        if rng.random() < 0.6 and kind_of(col) == "U":
+            # row labels are strings (an int is a row POSITION)
+            ops.insert(0, dict(op="lookup", label=rng.choice(col + ["zz"]), col=rng.choice(t["header"])))
+        cases.append(dict(kind="iops", tables=[dict(t, index_name=ixn)] + c["tables"][1:], ops=ops, block="index-random"))
+    # round trips with title / legend / index
+    tt = dict(header=["x", "id", "y"], cols=[[3, 1, 2], ["r1", "r2", "r3"], [0.5, 2.0, 1e-05]])
+    for title in ("", "T", "my, title", 'a "q" t'):
+        for legend in ("", "L", "the\tlegend"):
+            for ixn in (None, "id", "x"):
+                for sep in ("\t", ","):
+                    cases.append(dict(kind="irt", sep=sep, title=title, legend=legend, index_name=ixn, table=tt, block="index-rt"))
+    return cases
 
 
 def build_cases(tier, rng):
@@ -1411,6 +1724,7 @@ def build_cases(tier, rng):
     n_rt = 250 if tier == "quick" else 3000
     cases += [random_ops_case(rng) for _ in range(n_ops)]
     cases += [rand_rt_case(rng) for _ in range(n_rt)]
+    cases += index_block(tier, rng)
     return cases
 
 
@@ -1457,6 +1771,10 @@ def run(tier: str, seed: int) -> int:
     for c, ir, mr in zip(cases, impl, model):
         if c["kind"] == "ops":
             disagreements += compare_ops(rep, c, ir, mr, stats)
+        elif c["kind"] == "iops":
+            disagreements += compare_iops(rep, c, ir, mr, stats)
+        elif c["kind"] == "irt":
+            disagreements += compare_irt(rep, c, ir, mr, stats)
         else:
             disagreements += compare_rt(rep, c, ir, mr, stats)
     import os
@@ -1497,9 +1815,10 @@ def run(tier: str, seed: int) -> int:
 PARTIAL = [
     "type inference on load for text outside the transcribed classes (signs '+', underscores, surrounding white space, inf/nan, "
     "quotes, brackets, punctuation, > 15 significant digits, ints beyond int64): compared by correspondence, no theorem",
-    "compressed / JSON / pickle round trips: compared by correspondence, no theorem",
-    "sorted with a name listed twice in reverse=, and object-dtype (None / mixed) key columns: outside the sort theorem (compared / skipped)",
-    "index_name handling, title/legend rows in delimited files, float arithmetic (callbacks computing with floats): not modelled",
+    "JSON / pickle: theorem through the C10 serialisation model (Proofs/TableSerialProofs.v); gz / bz2 are assumed identity wrappers",
+    "sorted with a name listed twice in reverse=; object-dtype key columns of mutually comparable numbers, or only compared on ties "
+    "of earlier keys: outside the sort theorems (compared / skipped)",
+    "legend/title with a carriage return, float arithmetic in callbacks, row labels that are ints (positions): not modelled",
 ]
 
 
